@@ -126,16 +126,9 @@ func (m *machine) LowerConditionalBranch(b *ssa.Instruction) {
 func (m *machine) tryLowerBandToFlag(x, y ssa.Value) (ok bool) {
 	xx := m.compiler.ValueDefinition(x)
 	yy := m.compiler.ValueDefinition(y)
-	if xx.IsFromInstr() && xx.Instr.Constant() && xx.Instr.ConstantVal() == 0 {
-		if m.compiler.MatchInstr(yy, ssa.OpcodeBand) {
-			bandInstr := yy.Instr
-			m.lowerBitwiseAluOp(bandInstr, aluOpAnds, true)
-			ok = true
-			bandInstr.MarkLowered()
-			return
-		}
-	}
-
+	// Only `(a & b) cmp 0` can become ANDS: its flags are those of comparing the result with zero on
+	// the right. With the zero on the left the operands would be swapped, which is wrong for every
+	// condition but eq/ne.
 	if yy.IsFromInstr() && yy.Instr.Constant() && yy.Instr.ConstantVal() == 0 {
 		if m.compiler.MatchInstr(xx, ssa.OpcodeBand) {
 			bandInstr := xx.Instr
